@@ -5,8 +5,14 @@ with the leaf classes of `src/deleglise-rivat/S2_trivial.cpp`, `S2_easy*.cpp`, `
 * levels `b ≤ π ⌊√y⌋` : all leaves are hard;
 * levels `b > π ⌊√y⌋` : every `m` is a prime `r = p j`, `b < j ≤ π y`, and the leaf `(q, r)`, `q = p b`, is
   - trivial if `x < q² r`        (value `1`),
-  - easy    if `q² r ≤ x` and `x / (q r) ≤ y`   (value `π (x / (q r)) - b + 2`),
-  - hard    if `y < x / (q r)`   (value `phi (x / (q r)) (b - 1)`).
+  - easy    if `q² r ≤ x` and `x / y < q r`   (value `π (x / (q r)) - b + 2`),
+  - hard    if `q r ≤ x / y`     (value `phi (x / (q r)) (b - 1)`).
+
+The easy/hard boundary is the one of the C++ code (`S2_easy.cpp`: `l > pi[z / prime]`, `S2_hard.cpp`:
+`l ≤ pi[min(x / prime², z / prime)]`, `z = x / y`), i.e. `q r > z` is easy and `q r ≤ z` is hard.  (An earlier
+version of this file used `x / (q r) ≤ y` for "easy", which differs from the code exactly on the leaves with
+`x / (q r) = y`; both splits are valid, the executable reference `PcModel/Formulas.lean` and the code use this
+one.)
 
 Also the counting formula used by `S2_trivial.cpp` and the two facts that justify its/`S2_easy`'s loop
 bounds (no trivial leaf with `q² ≤ x / y`, no easy leaf with `x < q³`).
@@ -26,14 +32,14 @@ noncomputable def S2_trivial (x y c : ℕ) : ℤ :=
 /-- contribution of the easy leaves -/
 noncomputable def S2_easy (x y c : ℕ) : ℤ :=
   ∑ b ∈ Ioc (max c (π (Nat.sqrt y))) (π y),
-    ∑ j ∈ (Ioc b (π y)).filter (fun j => p b * p b * p j ≤ x ∧ x / (p b * p j) ≤ y),
+    ∑ j ∈ (Ioc b (π y)).filter (fun j => p b * p b * p j ≤ x ∧ x / y < p b * p j),
       ((π (x / (p b * p j)) : ℤ) - b + 2)
 
 /-- contribution of the hard leaves -/
 noncomputable def S2_hard (x y c : ℕ) : ℤ :=
   - ∑ b ∈ Ioc c (max c (π (Nat.sqrt y))), specTerm x y b (π y)
   + ∑ b ∈ Ioc (max c (π (Nat.sqrt y))) (π y),
-      ∑ j ∈ (Ioc b (π y)).filter (fun j => y < x / (p b * p j)),
+      ∑ j ∈ (Ioc b (π y)).filter (fun j => p b * p j ≤ x / y),
         (phi (x / (p b * p j)) (b - 1) : ℤ)
 
 /-- levels beyond `π √y`: the special leaves are the pairs of primes `(p b, p j)`, `b < j ≤ π y` -/
@@ -75,9 +81,9 @@ theorem dr_split {x y c : ℕ} (hy2 : y * y ≤ x) (hc : c ≤ π y) :
   rw [← Finset.sum_Ioc_consecutive _ hcs hsa]
   have key : ∀ b ∈ Ioc s a, - specTerm x y b a
       = (((Ioc b a).filter (fun j => x < p b * p b * p j)).card : ℤ)
-        + ∑ j ∈ (Ioc b a).filter (fun j => p b * p b * p j ≤ x ∧ x / (p b * p j) ≤ y),
+        + ∑ j ∈ (Ioc b a).filter (fun j => p b * p b * p j ≤ x ∧ x / y < p b * p j),
             ((π (x / (p b * p j)) : ℤ) - b + 2)
-        + ∑ j ∈ (Ioc b a).filter (fun j => y < x / (p b * p j)),
+        + ∑ j ∈ (Ioc b a).filter (fun j => p b * p j ≤ x / y),
             (phi (x / (p b * p j)) (b - 1) : ℤ) := by
     intro b hb
     rw [mem_Ioc] at hb
@@ -90,7 +96,7 @@ theorem dr_split {x y c : ℕ} (hy2 : y * y ≤ x) (hc : c ≤ π y) :
     -- split the j-range into the three classes
     rw [← Finset.sum_filter_add_sum_filter_not (Ioc b a) (fun j => x < p b * p b * p j)]
     rw [← Finset.sum_filter_add_sum_filter_not
-      ((Ioc b a).filter (fun j => ¬ x < p b * p b * p j)) (fun j => x / (p b * p j) ≤ y)]
+      ((Ioc b a).filter (fun j => ¬ x < p b * p b * p j)) (fun j => x / y < p b * p j)]
     rw [Finset.filter_filter, Finset.filter_filter, ← add_assoc]
     congr 1
     congr 1
@@ -126,21 +132,25 @@ theorem dr_split {x y c : ℕ} (hy2 : y * y ≤ x) (hc : c ≤ π y) :
         · rw [Nat.le_div_iff_mul_le hpos]
           calc p b * (p b * p j) = p b * p b * p j := by ring
             _ ≤ x := h3
-        · calc x / (p b * p j) ≤ y := h4
+        · have hy0 : 0 < y := lt_of_lt_of_le (p_pos b) hqy
+          have h5 : x / (p b * p j) < y := by
+            rw [Nat.div_lt_iff_lt_mul hpos, mul_comm]
+            exact (Nat.div_lt_iff_lt_mul hy0).1 h4
+          calc x / (p b * p j) ≤ y := h5.le
             _ < p b * p b := hsq
             _ = p b ^ 2 := (pow_two _).symm
     · -- hard
       apply Finset.sum_congr _ (fun _ _ => rfl)
       ext j
-      simp only [mem_filter, mem_Ioc, not_lt, not_le]
+      simp only [mem_filter, mem_Ioc, not_lt]
       constructor
       · rintro ⟨h1, _, h3⟩; exact ⟨h1, h3⟩
       · rintro ⟨h1, h3⟩
         refine ⟨h1, ?_, h3⟩
-        have hpos : 0 < p b * p j := Nat.mul_pos (p_pos b) (p_pos j)
-        have : p b ≤ x / (p b * p j) := le_trans hqy h3.le
-        rw [Nat.le_div_iff_mul_le hpos] at this
-        calc p b * p b * p j = p b * (p b * p j) := by ring
+        have hy0 : 0 < y := lt_of_lt_of_le (p_pos b) hqy
+        have := (Nat.le_div_iff_mul_le hy0).1 h3
+        calc p b * p b * p j = p b * p j * p b := by ring
+          _ ≤ p b * p j * y := Nat.mul_le_mul_left _ hqy
           _ ≤ x := this
   have e : - ∑ b ∈ Ioc s a, specTerm x y b a = ∑ b ∈ Ioc s a, - specTerm x y b a := by
     rw [Finset.sum_neg_distrib]
